@@ -185,6 +185,11 @@ def focused(tier):
         out.append(single("exact=%d renege (high precision)" % k, fam, c=1, K=K, arr=DA, srv=DS, exact=k, classkw={"renege": [[0.3, 0.1]]}, features=["exact", "reneging"]))
         out.append(cfg("exact=%d cct (high precision)" % k, fam, [node(c=1)],
                        {"A": klass([DA], [DS], prio=1, cct={"B": [0.3, 0.1]}), "B": klass([[0.2, 0.4]], [DS], prio=0)}, K=2, exact=k, features=["exact", "cct"]))
+    # priority raised while waiting pre-empts at once; the two classes have DIFFERENT service menus
+    for k in (12, 28):
+        out.append(cfg("exact=%d cct raises priority + preempt resume" % k, fam, [node(c=1, preempt="resume")],
+                       {"A": klass([DA], [[0.7, 0.9]], prio=1, cct={"B": [0.3, 0.1]}), "B": klass([{"values": [0.2, 0.4], "budget": 1}], [[0.3, 0.1]], prio=0)},
+                       K=2, exact=k, features=["exact", "cct", "preempt_prio"]))
     out.append(single("exact=12 tiny samples", fam, c=1, K=K, arr=[0.0000125, 0.1], srv=[0.00003, 0.2], exact=12, grid=False, features=["exact", "tiny"]))
     out.append(single("exact=28 tiny samples renege", fam, c=1, K=K, arr=[0.0000125, 0.1], srv=[0.2, 0.00003], exact=28, grid=False,
                       classkw={"renege": [[0.000017, 0.3]]}, features=["exact", "tiny", "reneging"]))
